@@ -203,6 +203,8 @@ fn get_var_name(mut var_id: usize) -> String {
         var_name.push(VAR_NAME_CHARS[var_id % VAR_NAME_CHARS.len()]);
         var_id /= VAR_NAME_CHARS.len();
     }
+    #[cfg(feature = "verif-hooks")]
+    crate::verif::emit(crate::verif::Event::GenIdent { name: &var_name });
     var_name
 }
 
@@ -255,6 +257,8 @@ impl<'a, W: fmt::Write> JsFunctionScopeWriter<'a, W> {
         &mut self,
         f: impl FnOnce(&mut Self) -> Result<R, TmplError>,
     ) -> Result<R, TmplError> {
+        #[cfg(feature = "verif-hooks")]
+        crate::verif::emit(crate::verif::Event::GenStep);
         let block = self.get_block_mut();
         if block.need_stat_sep {
             write!(&mut self.w, ";")?;
